@@ -341,7 +341,7 @@ def c04_model_conformance(seed=0):
 
 
 
-def c04_gz_flushpoint(records=1):
+def c04_gz_flushpoint(records=1, by_path=False):
     """a gzip stream written with a flush after every record, cut at the flush point behind the last record (no end-of-stream marker)"""
     import gzip
 
@@ -362,7 +362,23 @@ def c04_gz_flushpoint(records=1):
     w.fp = None
     out, end = [], "stop"
     try:
-        for r in RecordStreamReader(gzip.GzipFile(fileobj=io.BytesIO(data), mode="rb")):
+        if by_path:
+            import tempfile
+
+            from flow.record import RecordReader
+
+            with tempfile.TemporaryDirectory() as td:
+                p_ = os.path.join(td, "cut.records.gz")
+                open(p_, "wb").write(data)
+                src = list(RecordReader(p_)) + [None] + list(RecordReader(fileobj=open(p_, "rb")))
+                first, second = src[: src.index(None)], src[src.index(None) + 1:]
+                if [r.n for r in first] != [r.n for r in second]:
+                    raise ValueError(f"by path {len(first)} record(s), as file object {len(second)}")
+                out = [r.n for r in first]
+                src = []
+        else:
+            src = RecordStreamReader(gzip.GzipFile(fileobj=io.BytesIO(data), mode="rb"))
+        for r in src:
             out.append(r.n)
     except Exception as e:
         end = f"raise {type(e).__name__}: {e}"
